@@ -578,6 +578,16 @@ impl Fiber {
         self.assert_frame_inbounds();
 
         self.frames.pop();
+
+        // handlers of try blocks the popped frame was still inside of
+        // (a return out of nested tries pops only the innermost) are dead
+        while self
+          .exception_handler()
+          .map_or(false, |handler| handler.call_frame_depth() > self.frames.len())
+        {
+          self.exception_handlers.pop();
+        }
+
         FiberPopResult::Ok(self.frame().fun())
       },
     }
